@@ -92,6 +92,14 @@ fn main() -> Result<(), Box<dyn Error + Sync + Send>> {
     Ok(())
 }
 
+#[cfg(lelwel_verif)]
+pub fn verif_main_loop(
+    connection: Connection,
+    params: serde_json::Value,
+) -> Result<(), Box<dyn Error + Sync + Send>> {
+    main_loop(connection, params)
+}
+
 fn main_loop(
     connection: Connection,
     params: serde_json::Value,
